@@ -42,23 +42,32 @@ ASSUMPTIONS = [
     "only be the controller's doing",
     "programs with entanglement blocks are well-formed (ids free, every request awaited); random tails may fault",
 ]
-PROBES = ["stop-during-foreign-subroutine", "init-during-foreign-subroutine", "reinit-after-stop", "keep-mapped",
+PROBES = ["keep-response-deferred-busy", "stop-during-foreign-subroutine", "init-during-foreign-subroutine", "reinit-after-stop", "keep-mapped",
           "keep-mapped-while-other-app-holds-qubits", "program-fault-in-one-app", "three-apps", "qfree", "qalloc"]
 
 BIAS = [3, 1, 1, 3, 4, 2, 1, 1, 2, 1, 2, 2, 6, 5, 2]
 STEP_CAP = 120
 
 
-def epr_block(aid: int, n_pairs: int, remote: int, sock: int, base_addr: int) -> List[tuple]:
-    """Raw NetQASM: receive n keep pairs into virtual qubits 0..n-1 and wait for all."""
+def epr_block(aid: int, n_pairs: int, remote: int, sock: int, base_addr: int, busy: int = 0, filler: int = 0) -> List[tuple]:
+    """Raw NetQASM: receive n keep pairs into virtual qubits 0..n-1 and wait for all.  The first `busy` target
+    qubits are allocated beforehand and freed only after the request was issued, so responses that arrive in
+    between have to wait for their virtual qubit."""
     qa, ea = base_addr, base_addr + 1
-    p: List[tuple] = [("set", ("R", 5), n_pairs), ("array", ("R", 5), qa)]
+    p: List[tuple] = []
+    for i in range(busy):
+        p += [("set", ("Q", 2), i), ("qalloc", ("Q", 2))]
+    p += [("set", ("R", 5), n_pairs), ("array", ("R", 5), qa)]
     for i in range(n_pairs):
         p += [("set", ("R", 6), i), ("set", ("R", 7), i), ("store", ("R", 6), qa, ("R", 7))]
     p += [("set", ("R", 5), 10 * n_pairs), ("array", ("R", 5), ea),
           ("set", ("R", 8), remote), ("set", ("R", 9), sock), ("set", ("R", 10), qa), ("set", ("R", 11), ea),
-          ("recv_epr", ("R", 8), ("R", 9), ("R", 10), ("R", 11)),
-          ("set", ("R", 6), 0), ("set", ("R", 7), 10 * n_pairs), ("wait_all", ea, ("R", 6), ("R", 7))]
+          ("recv_epr", ("R", 8), ("R", 9), ("R", 10), ("R", 11))]
+    for i in range(filler):
+        p.append(("set", ("C", 14), i))
+    for i in range(busy):
+        p += [("set", ("Q", 2), i), ("qfree", ("Q", 2))]
+    p += [("set", ("R", 6), 0), ("set", ("R", 7), 10 * n_pairs), ("wait_all", ea, ("R", 6), ("R", 7))]
     return p
 
 
@@ -109,7 +118,8 @@ def run(ch: Choices, opts: Dict[str, Any]) -> Dict[str, Any]:
                 npairs = 0
                 if k == 0 and ch.flag(1, 2, "epr"):
                     npairs = 1 + ch.draw(unit, "npairs")
-                    blk = epr_block(a, npairs, GHOST, a, 20)
+                    busy = ch.draw(npairs + 1, "busy") if ch.flag(1, 2, "busyflag") else 0
+                    blk = epr_block(a, npairs, GHOST, a, 20, busy=busy, filler=ch.draw(10, "filler") if busy else 0)
                     # the block's qubits are allocated by the link; tell the shadow state
                     off = len(blk)
                     body = [_shift(t, off) for t in body]
@@ -165,10 +175,15 @@ def run(ch: Choices, opts: Dict[str, Any]) -> Dict[str, Any]:
 
     # deliveries / retries may only touch apps that have an outstanding request
     def pre_delivery(n, resp, qk, rec):
+        state["pend0"] = len(ex._pending_epr_responses)
         state["snap"] = snap_all()
         state["owners"] = epr_owner_apps() | {rec["job"]["purpose_r"]}
 
     def post_delivery(n, resp, qk, rec):
+        if len(ex._pending_epr_responses) > state.get("pend0", 0) and rec["job"]["type"] == RequestType.K and \
+                ex._epr_recv_requests.get((qk[2], qk[3])):
+            bump(probes, "keep-response-deferred-busy")
+            bump(faults, "keep-response-deferred-virtual-qubit-busy")
         after = snap_all()
         for aid in set(state["snap"]) | set(after):
             if aid in state["owners"]:
